@@ -365,7 +365,31 @@ def gen_scenario(seed, profile_name="mixed", overrides=None):
         id=f"{profile_name}-{seed}", seed=seed, profile=profile_name, table=t, model=m,
         sim=dict(n=n, register_stocks=bool(prof.get("register_stocks", rng.random() < 0.3))), events=events,
     )
+    rng2 = random.Random(f"late-{seed}")        # separate stream: the scenarios drawn before are unchanged
+    if events and rng2.random() < prof.get("p_late", 0.25):
+        late = late_registration(rng2, events, m["dt"])
+        if late:
+            scn["sim"]["late"] = late
     return scn
+
+
+def late_registration(rng, events, dt, first=None):
+    """Register the tail of the event list while the simulation is running, before any of them occurs."""
+    if first is None:
+        # prefer a split where some event registered from the start is already under way when the
+        # others are added
+        cands = list(range(len(events)))
+        rng.shuffle(cands)
+        first = cands[0]
+        for c in cands:
+            if c > 0 and min(e["occ"] for e in events[c:]) - 1 >= min(e["occ"] for e in events[:c]) + dt:
+                first = c
+                break
+    kmax = (min(e["occ"] for e in events[first:]) - 1) // dt
+    if kmax < 0:
+        return None
+    k = kmax if rng.random() < 0.7 else rng.randint(min(1, kmax), kmax)
+    return dict(first=first, k=k, api=rng.choice(["add_events", "add_events", "add_event"]))
 
 
 def describe(scn):
@@ -377,4 +401,5 @@ def describe(scn):
         capital=(m.get("capital") or {}).get("kind", "default"), n=scn["sim"]["n"],
         events=[(e["type"], e["occ"], e["dur"], e.get("tau"), e.get("recovery_function"),
                  len(e.get("rebuilding_sectors", [])), bool(e.get("households"))) for e in scn["events"]],
+        late=scn["sim"].get("late"),
     )
